@@ -49,7 +49,8 @@ def run(ctx):
         rule="plans from harness/plangen (1-3 blocks, 1-3 sequences, 1-3 actions, each of the 10 check groups with p in {.15,.4,.7,1}), "
              "then nil/empty slices injected; for each plan the walk is run with a consumer stopping at every position k=1..n+1 and never; "
              "every walk is read twice: each Item abstracted inside the consumer, and the Item values kept (Chain not copied) and abstracted after the walk returned "
-             "(aliased chains); the kept reading of the full walk always goes to the model, that of an early stop when it differs from the in-loop reading; "
+             "(aliased chains); ONE walk.Plan(p) value per plan is walked again and again (stopped at k then in full for k = 1, middle, last; full twice; "
+             "two goroutines at once, full+full and stopped+full; full once more) and every one of these walks goes to the model too; the kept reading of the full walk always goes to the model, that of an early stop when it differs from the in-loop reading; "
              "evaluations = (plan, stop position) pairs; distinct = distinct full walks (hash of the yielded path/chain list); non-trivial = more than 3 objects",
         samples=[dict(id=c["id"], input=c["input"], dist=c["dist"], full_walk=c["observed"][0]["items"][:12]) for c in cases[:3]],
         traces_validated_against_impl=stops,
@@ -57,6 +58,7 @@ def run(ctx):
         distribution=dict(objects=fw.histogram(c["dist"]["objects"] for c in cases),
                           blocks=fw.histogram(c["dist"]["blocks"] for c in cases),
                           max_sequences_with_actions_in_a_block=fw.histogram(c["dist"]["seqs_with_actions"] for c in cases),
+                          walks_of_one_seq_value_per_plan=fw.histogram(c["dist"]["same_seq_walks"] for c in cases),
                           kept_reading_differs_from_in_loop=fw.histogram(c["dist"]["kept_differs"] for c in cases),
                           reshaped=fw.histogram(x.split(":")[1] if ":" in x else x for c in cases for x in (c["dist"]["reshaped"] or ["none"]))),
         coq_shards=[dict(shard=i["shard"], n=i["n"], rc=i["rc"], wall_s=round(i["wall"], 1)) for i in infos],
